@@ -5,6 +5,9 @@
 import Gts.Lemmas.Guest
 import Gts.Lemmas.Table
 import Gts.Lemmas.Record
+import Gts.Lemmas.MarksOps
+import Gts.Lemmas.MarkGuardOps
+import Gts.Lemmas.MarkGuardEmbed
 namespace Gts.C02
 open Gts Loc
 
@@ -99,6 +102,7 @@ theorem expand_wf (l : Loc) (i n : Int) (hw : wf l = true) (hn : 0 ≤ n) : wf (
 /-- non-vacuity: a complement-strand join spanning the insertion point satisfies the hypotheses -/
 example : wf (compl (joined [ranged 2 5 true false, point 7, ranged 9 12 false true])) = true ∧
     shiftAbs (compl (joined [ranged 2 5 true false, point 7, ranged 9 12 false true])) 4 3 = false ∧
+    expandAbs (compl (joined [ranged 2 5 true false, point 7, ranged 9 12 false true])) 4 3 = false ∧
     (den (compl (joined [ranged 2 5 true false, point 7, ranged 9 12 false true]))).Nodup := by decide
 
 /-! ### record level: what `gts.Insert` / `gts.Embed` do to every feature of a record -/
@@ -144,5 +148,95 @@ theorem insert_feature_count (host guest : Seq) (i : Int) :
   constructor
   · simpa using (insert_table_perm host guest i).length_eq
   · simpa using (embed_table_perm host guest i).length_eq
+
+/-! ### partial markers stay on the same outer ends
+
+`outerMarks` (`Gts/Spec/Marks.lean`) is the Lean restatement of the Go oracle
+`harness/spec.go outerMarks`. -/
+
+/-- FULL STATEMENT (false on the model, and on the code): "Insert leaves the outer 5'/3' markers
+of every well-formed location unchanged".  Witness `join(4,<4..6)` (a literal that `Join` would
+reduce), any index, guest length 0: `Shift` rebuilds the join, `Push` replaces the point by the
+range that starts at it, and the result `<4..6` has a 5' marker where the unmarked point was. -/
+theorem shift_marks_full_refuted :
+    ¬ (∀ (l : Loc) (i n : Int), wf l = true → 0 ≤ n → outerMarks (shift l i n) = outerMarks l) := by
+  intro h
+  have := h (joined [point 3, ranged 3 6 true false]) 0 0 (by decide) (by decide)
+  revert this
+  decide
+
+/-- **Insert keeps the partial markers on the same outer ends**: for every well-formed location
+of any kind, arity, nesting and strand, every index `i` and guest length `n ≥ 0`, the 5' marker
+(before the first residue read) and the 3' marker (behind the last residue read) of the shifted
+location are those of the original — also when a range is split around the guest — provided no
+marker-moving rule of `Push` fires in a `Join` of the evaluation (`shiftMarkAbs`). -/
+theorem shift_marks_partial (l : Loc) (i n : Int) (hw : wf l = true) (hn : 0 ≤ n)
+    (hg : shiftMarkAbs l i n = false) :
+    outerMarks (shift l i n) = outerMarks l :=
+  outerMarks_of_marks (shift_marks_aux l i n hw hn hg)
+
+/-- … in particular under the hypotheses of `shift_den_eq_partial` (K2 guard, duplicate-free
+denotation) — the conditions under which the Go oracle evaluates the marker clause -/
+theorem shift_marks_nodup_partial (l : Loc) (i n : Int) (hw : wf l = true) (hn : 0 ≤ n)
+    (hk2 : shiftAbs l i n = false) (hnd : (den l).Nodup) :
+    outerMarks (shift l i n) = outerMarks l :=
+  shift_marks_partial l i n hw hn (shiftMarkAbs_of_nodup l i n hw hn hk2 hnd)
+
+/-- **Embed keeps the partial markers on the same outer ends** (`Expand` with `n ≥ 0`; also the
+guest features, which are translated by `Expand(0, i)`) -/
+theorem expand_marks_partial (l : Loc) (i n : Int) (hw : wf l = true) (hn : 0 ≤ n)
+    (hg : expandMarkAbs l i n = false) :
+    outerMarks (expand l i n) = outerMarks l :=
+  outerMarks_of_marks (expand_ins_marks_aux l i n hw hn hg)
+
+/-- … Embed under the hypotheses of `expand_den_partial` (K2 guard) plus duplicate-freeness (the
+embedded location is duplicate-free again: a guest residue enters a part only if that part spans
+`i`, `Gts/Lemmas/MarkGuardEmbed.lean`) -/
+theorem expand_marks_nodup_partial (l : Loc) (i n : Int) (hw : wf l = true) (hn : 0 ≤ n)
+    (hk2 : expandAbs l i n = false) (hnd : (den l).Nodup) :
+    outerMarks (expand l i n) = outerMarks l :=
+  expand_marks_partial l i n hw hn (expandInsMarkAbs_of_nodup l i n hw hn hk2 hnd)
+
+/-- non-vacuity: a complement-strand join with both outer markers, split by the insertion -/
+example : wf (compl (joined [ranged 2 5 true false, point 7, ranged 9 12 false true])) = true ∧
+    shiftMarkAbs (compl (joined [ranged 2 5 true false, point 7, ranged 9 12 false true])) 4 3 = false ∧
+    expandMarkAbs (compl (joined [ranged 2 5 true false, point 7, ranged 9 12 false true])) 4 3 = false ∧
+    outerMarks (compl (joined [ranged 2 5 true false, point 7, ranged 9 12 false true])) = (true, true) ∧
+    shiftAbs (compl (joined [ranged 2 5 true false, point 7, ranged 9 12 false true])) 4 3 = false ∧
+    (den (compl (joined [ranged 2 5 true false, point 7, ranged 9 12 false true]))).Nodup ∧
+    (shift (compl (joined [ranged 2 5 true false, point 7, ranged 9 12 false true])) 4 3).beq
+      (compl (joined [ranged 2 4 true false, ranged 7 8 false false, point 10, ranged 12 15 false true])) = true := by
+  decide
+
+/-- **Insert / Embed, record level**: every host feature is present in the result with unchanged
+key and qualifiers and the same outer partial markers; so is every guest feature. -/
+theorem insert_host_feature_marks_partial (host guest : Seq) (i : Int) (f : Feature) (hf : f ∈ host.feats)
+    (hw : wf f.loc = true) (hg : shiftMarkAbs f.loc i guest.len = false) :
+    ∃ f' ∈ (host.insert i guest).feats, f'.key = f.key ∧ f'.props = f.props ∧
+      outerMarks f'.loc = outerMarks f.loc :=
+  ⟨{ f with loc := f.loc.shift i guest.len },
+   mem_of_perm_map_append_left (insert_table_perm host guest i) hf, rfl, rfl,
+   shift_marks_partial f.loc i guest.len hw guest.len_nonneg hg⟩
+
+theorem embed_host_feature_marks_partial (host guest : Seq) (i : Int) (f : Feature) (hf : f ∈ host.feats)
+    (hw : wf f.loc = true) (hg : expandMarkAbs f.loc i guest.len = false) :
+    ∃ f' ∈ (host.embed i guest).feats, f'.key = f.key ∧ f'.props = f.props ∧
+      outerMarks f'.loc = outerMarks f.loc :=
+  ⟨{ f with loc := f.loc.expand i guest.len },
+   mem_of_perm_map_append_left (embed_table_perm host guest i) hf, rfl, rfl,
+   expand_marks_partial f.loc i guest.len hw guest.len_nonneg hg⟩
+
+theorem insert_guest_feature_marks_partial (host guest : Seq) (i : Int) (hi : 0 ≤ i) (f : Feature)
+    (hf : f ∈ guest.feats) (hw : wf f.loc = true) (hg : expandMarkAbs f.loc 0 i = false) :
+    (∃ f' ∈ (host.insert i guest).feats, f'.key = f.key ∧ f'.props = f.props ∧
+      outerMarks f'.loc = outerMarks f.loc) ∧
+    (∃ f' ∈ (host.embed i guest).feats, f'.key = f.key ∧ f'.props = f.props ∧
+      outerMarks f'.loc = outerMarks f.loc) :=
+  ⟨⟨{ f with loc := f.loc.expand 0 i },
+    mem_of_perm_map_append_right (insert_table_perm host guest i) hf, rfl, rfl,
+    expand_marks_partial f.loc 0 i hw hi hg⟩,
+   ⟨{ f with loc := f.loc.expand 0 i },
+    mem_of_perm_map_append_right (embed_table_perm host guest i) hf, rfl, rfl,
+    expand_marks_partial f.loc 0 i hw hi hg⟩⟩
 
 end Gts.C02
